@@ -32,25 +32,25 @@ const (
 // Monitor observes a chain. All callbacks run on the goroutine that executes the block.
 type Monitor interface {
 	Name() string
-	BeforeBlock(c *Chain, ctx sdk.Context)                     // S0: committed state of h-1
-	BeginBlockEntry(c *Chain, ctx sdk.Context)                 // S1: after PreBlocker
-	BeginBlockExit(c *Chain, ctx sdk.Context, err error)       // S2
-	AfterTx(c *Chain, ctx sdk.Context, tx sdk.Tx, ok bool)     // Ti, inside the tx's branch
-	EndBlockEntry(c *Chain, ctx sdk.Context)                   // S3
-	EndBlockExit(c *Chain, ctx sdk.Context, err error)         // S4
-	AfterCommit(c *Chain, ctx sdk.Context, res *BlockResult)   // S5
+	BeforeBlock(c *Chain, ctx sdk.Context)                   // S0: committed state of h-1
+	BeginBlockEntry(c *Chain, ctx sdk.Context)               // S1: after PreBlocker
+	BeginBlockExit(c *Chain, ctx sdk.Context, err error)     // S2
+	AfterTx(c *Chain, ctx sdk.Context, tx sdk.Tx, ok bool)   // Ti, inside the tx's branch
+	EndBlockEntry(c *Chain, ctx sdk.Context)                 // S3
+	EndBlockExit(c *Chain, ctx sdk.Context, err error)       // S4
+	AfterCommit(c *Chain, ctx sdk.Context, res *BlockResult) // S5
 }
 
 // BaseMonitor is a no-op implementation to embed.
 type BaseMonitor struct{}
 
-func (BaseMonitor) BeforeBlock(*Chain, sdk.Context)                 {}
-func (BaseMonitor) BeginBlockEntry(*Chain, sdk.Context)             {}
-func (BaseMonitor) BeginBlockExit(*Chain, sdk.Context, error)       {}
-func (BaseMonitor) AfterTx(*Chain, sdk.Context, sdk.Tx, bool)       {}
-func (BaseMonitor) EndBlockEntry(*Chain, sdk.Context)               {}
-func (BaseMonitor) EndBlockExit(*Chain, sdk.Context, error)         {}
-func (BaseMonitor) AfterCommit(*Chain, sdk.Context, *BlockResult)   {}
+func (BaseMonitor) BeforeBlock(*Chain, sdk.Context)               {}
+func (BaseMonitor) BeginBlockEntry(*Chain, sdk.Context)           {}
+func (BaseMonitor) BeginBlockExit(*Chain, sdk.Context, error)     {}
+func (BaseMonitor) AfterTx(*Chain, sdk.Context, sdk.Tx, bool)     {}
+func (BaseMonitor) EndBlockEntry(*Chain, sdk.Context)             {}
+func (BaseMonitor) EndBlockExit(*Chain, sdk.Context, error)       {}
+func (BaseMonitor) AfterCommit(*Chain, sdk.Context, *BlockResult) {}
 
 // Hooks carries the wrappers installed into the app before it is sealed.
 type Hooks struct {
@@ -193,25 +193,28 @@ type Chain struct {
 	Monitors []Monitor
 	cleanup  func()
 
-	Height   int64 // last committed height
-	Time     time.Time
-	Dead     bool
-	valsets  map[int64][]CometVal // valsets[h] votes on block h
-	lastExt  abci.ExtendedCommitInfo
-	pendingVotes  map[string]VoteSpec // cons addr -> vote on the block just committed
-	PendingHonest map[string][]byte
+	Height                   int64 // last committed height
+	Time                     time.Time
+	Dead                     bool
+	valsets                  map[int64][]CometVal    // valsets[h] votes on block h
+	lastExt                  abci.ExtendedCommitInfo // commit carried by the block being / last executed
+	pendingVotes             map[string]VoteSpec     // cons addr -> vote on the block just committed
+	PendingHonest            map[string][]byte
 	ExtVerdicts, ExtRejected int
 
-	observing bool
-	phase     string
-	txIndex   int
-	phaseErr  string
-	lastPanic string
+	observing  bool
+	phase      string
+	txIndex    int
+	phaseErr   string
+	lastPanic  string
 	failModule string
 
 	Violations []Violation
 	Flags      map[string]bool
 	Rec        *Recorder
+	// OnProposal is called with the accepted honest proposal before it is finalised (C17 mutates and re-submits it)
+	OnProposal func(c *Chain, req *abci.RequestProcessProposal, ec abci.ExtendedCommitInfo)
+	PanicLog   *PanicLog
 	// ExtensionFor builds the vote extension of an honest validator for the block just committed.
 	ExtensionFor func(c *Chain, ctx sdk.Context, v *ValKeys) []byte
 }
@@ -236,7 +239,7 @@ func (c *Chain) TxIndex() int  { return c.txIndex }
 func NewChain(w *World, o AppOpts, monitors ...Monitor) *Chain {
 	h := &Hooks{}
 	a, cleanup := NewApp(o, h)
-	c := &Chain{W: w, App: a, Monitors: monitors, cleanup: cleanup, valsets: map[int64][]CometVal{}, pendingVotes: map[string]VoteSpec{}, Flags: map[string]bool{}}
+	c := &Chain{PanicLog: o.PanicLog, W: w, App: a, Monitors: monitors, cleanup: cleanup, valsets: map[int64][]CometVal{}, pendingVotes: map[string]VoteSpec{}, Flags: map[string]bool{}}
 	h.chain = c
 	req := w.InitChainRequest(a)
 	res, err := a.InitChain(req)
@@ -355,11 +358,11 @@ func toCommitInfo(ec abci.ExtendedCommitInfo) abci.CommitInfo {
 
 // BlockPlan describes the next block.
 type BlockPlan struct {
-	Gap      time.Duration
-	Txs      [][]byte
+	Gap time.Duration
+	Txs [][]byte
 	// Votes decides how each validator of this block's set votes on THIS block (the votes travel in the next
 	// block's commit). honest is the extension the real ExtendVote logic would produce. nil => commit + honest.
-	Votes    func(c *Chain, v CometVal, honest []byte) VoteSpec
+	Votes       func(c *Chain, v CometVal, honest []byte) VoteSpec
 	Misbehavior []abci.Misbehavior
 	// MutateProposal lets a test alter the proposal between Prepare and Process (C17); the block is then only processed, never finalised, when rejected.
 	ProposerIdx int
@@ -417,10 +420,11 @@ func (c *Chain) NextBlock(p BlockPlan) *BlockResult {
 	br.Txs = prep.Txs
 	br.NumUserTx = len(p.Txs)
 	blockHash := sha256.Sum256(bytes.Join(append([][]byte{[]byte(fmt.Sprint(h))}, prep.Txs...), nil))
-	proc, err := c.App.ProcessProposal(&abci.RequestProcessProposal{
+	ppReq := &abci.RequestProcessProposal{
 		Txs: prep.Txs, ProposedLastCommit: toCommitInfo(ec), Hash: blockHash[:], Height: h, Time: t,
 		ProposerAddress: proposer, NextValidatorsHash: nextValsHash[:], Misbehavior: p.Misbehavior,
-	})
+	}
+	proc, err := c.App.ProcessProposal(ppReq)
 	if err != nil {
 		br.Err = fmt.Errorf("ProcessProposal: %w", err)
 		br.Phase = "process"
@@ -436,6 +440,9 @@ func (c *Chain) NextBlock(p BlockPlan) *BlockResult {
 		return br
 	}
 
+	if c.OnProposal != nil && h > 1 {
+		c.OnProposal(c, ppReq, ec)
+	}
 	// the validators of height h now precommit block h: extensions are built on the state committed at h-1
 	// (what ExtendVote sees) and filtered through the real VerifyVoteExtension, as the consensus engine does.
 	c.pendingVotes = map[string]VoteSpec{}
@@ -469,6 +476,7 @@ func (c *Chain) NextBlock(p BlockPlan) *BlockResult {
 	if c.Rec != nil {
 		c.Rec.Finalize(req)
 	}
+	c.lastExt = ec
 	c.observing = true
 	res, ferr := func() (r *abci.ResponseFinalizeBlock, err error) {
 		defer func() {
